@@ -92,6 +92,17 @@ Theorem C03_pinned_third_name_refuted : exists t db,
 Proof. exists wit_triple_group, wit_table. exact pinned_triple_group. Qed.
 Print Assumptions C03_pinned_third_name_refuted.
 
+(* Before the `fix:` an unselected key part kept the raw default name key_<i>, which could repeat the name of a
+   selected column (a default-named column of a grouping subquery): two GroupBy fields named key_1, and the
+   key_1 column showed another key's values.  SELECT key_1, count( * ) AS c FROM (SELECT a AS k, a + 1, b AS v FROM t
+   GROUP BY a, a + 1, b) x GROUP BY key_1, v. *)
+Theorem C03_pinned_key_name_refuted : exists t db,
+  in_fragment t = true /\ plain_db db = true /\
+  result_equivb (has_order_by t) (exec_top_pinned_names db t) (den_top db t) = false /\
+  exec_top db t = den_top db t.
+Proof. exists wit_key_name, wit_table. destruct pinned_key_name as [A [B [C [D _]]]]. auto. Qed.
+Print Assumptions C03_pinned_key_name_refuted.
+
 (* The pinned parser built a GroupBy node only when some select expression was an aggregate call:
    SELECT a AS k FROM t GROUP BY a returned one row per input row.  (`fix:` group whenever there is a GROUP BY.) *)
 Theorem C03_pinned_group_by_ignored_refuted : exists t db,
